@@ -66,7 +66,7 @@ func init() {
 		Old: "\tksuidOld, err := ksuid.FromParts(k.Time().Add(-w.GetExpirationDuration()*2), b)", New: "\t_ = b\n\tksuidOld, err := ksuid.NewRandomWithTime(k.Time().Add(-w.GetExpirationDuration() * 2))",
 		Expect: "lookback"})
 	addWitness(witness{Prop: "C19", Name: "read-size-cap", File: "pkg/wal/wal.go",
-		Old: "\tb, err := ioutil.ReadAll(r)", New: "\tb := make([]byte, 1024)\n\t_, err = r.Read(b)",
+		Old: "\tb, err := ioutil.ReadAll(r)", New: "\t_ = ioutil.Discard\n\tb := make([]byte, 1024)\n\t_, err = r.Read(b)",
 		Expect: "read"})
 	addWitness(witness{Prop: "C19", Name: "entry-overwritable", File: "pkg/wal/wal.go",
 		Old: "err = w.walStore.Put(ctx, e.Token, strings.NewReader(e.Payload), storage.NoOverWrite)", New: "err = w.walStore.Put(ctx, e.Token, strings.NewReader(e.Payload), storage.OverWrite)",
@@ -341,43 +341,69 @@ func runC16(c *Ctx) {
 			}})
 			c.check(!badRet, "keysprefix.cache-dropped", g.ID, p.Pos(g.Decl.Pos()), "whenever an empty continuation token is returned the cached walk was dropped", "the last page (empty continuation token) can be returned without dropping the cached walk for that prefix: the next listing of the prefix on this store returns stale keys")
 		}
-		// page window
+		// page window — variables identified by their role in the final `return page[lo:hi], token, nil`
+		wr := map[types.Object]string{}
+		if sig := g.Obj.Type().(*types.Signature); sig.Params().Len() == 5 {
+			wr[sig.Params().At(4)] = "count"
+		}
+		okSlice := false
+		ast.Inspect(g.Decl.Body, func(nd ast.Node) bool {
+			if _, isLit := nd.(*ast.FuncLit); isLit {
+				return false
+			}
+			r, ok := nd.(*ast.ReturnStmt)
+			if !ok || len(r.Results) != 3 {
+				return true
+			}
+			se, ok := ast.Unparen(r.Results[0]).(*ast.SliceExpr)
+			if !ok || se.Low == nil || se.High == nil {
+				return true
+			}
+			ids := []ast.Expr{se.X, se.Low, se.High, r.Results[1]}
+			names := []string{"search", "start", "end", "next"}
+			all := true
+			for i, e := range ids {
+				id, ok := ast.Unparen(e).(*ast.Ident)
+				if !ok || ginfo.Uses[id] == nil {
+					all = false
+					break
+				}
+				wr[ginfo.Uses[id]] = names[i]
+			}
+			if all && isNil(ginfo, r.Results[2]) {
+				okSlice = true
+			}
+			return true
+		})
 		okWin := false
 		ast.Inspect(g.Decl.Body, func(nd ast.Node) bool {
 			ifs, ok := nd.(*ast.IfStmt)
 			if !ok {
 				return true
 			}
-			d := nos(exprString(ifs.Cond))
+			d := nos(roleString(ginfo, ifs.Cond, wr))
 			if d == "len(search)>start+count" {
 				var thenEnd, thenNext, elseEnd string
 				for _, st := range ifs.Body.List {
 					if as, ok := st.(*ast.AssignStmt); ok {
-						switch exprString(as.Lhs[0]) {
+						switch roleString(ginfo, as.Lhs[0], wr) {
 						case "end":
-							thenEnd = nos(exprString(as.Rhs[0]))
+							thenEnd = nos(roleString(ginfo, as.Rhs[0], wr))
 						case "next":
-							thenNext = nos(exprString(as.Rhs[0]))
+							thenNext = nos(roleString(ginfo, as.Rhs[0], wr))
 						}
 					}
 				}
 				if eb, ok := ifs.Else.(*ast.BlockStmt); ok {
 					for _, st := range eb.List {
-						if as, ok := st.(*ast.AssignStmt); ok && exprString(as.Lhs[0]) == "end" {
-							elseEnd = nos(exprString(as.Rhs[0]))
+						if as, ok := st.(*ast.AssignStmt); ok && roleString(ginfo, as.Lhs[0], wr) == "end" {
+							elseEnd = nos(roleString(ginfo, as.Rhs[0], wr))
 						}
 					}
 				}
 				if thenEnd == "start+count" && thenNext == "search[start+count]" && elseEnd == "len(search)" {
 					okWin = true
 				}
-			}
-			return true
-		})
-		okSlice := false
-		ast.Inspect(g.Decl.Body, func(nd ast.Node) bool {
-			if r, ok := nd.(*ast.ReturnStmt); ok && len(r.Results) == 3 && exprString(r.Results[0]) == "search[start:end]" {
-				okSlice = true
 			}
 			return true
 		})
@@ -688,6 +714,10 @@ func runC19(c *Ctx) {
 		lt := p.Func("pkg/wal.WAL.ListTokens")
 		info := lt.Info()
 		okBack, okZero, okStart, okCap := false, false, false, false
+		capConst := "?"
+		if cv, ok := repoConst(p, "pkg/wal", "maxEntriesPerList"); ok {
+			capConst = cv.ExactString()
+		}
 		ast.Inspect(lt.Decl.Body, func(nd ast.Node) bool {
 			switch x := nd.(type) {
 			case *ast.CallExpr:
@@ -709,9 +739,15 @@ func runC19(c *Ctx) {
 					}
 				}
 			case *ast.IfStmt:
-				if exprString(x.Cond) == "max > maxEntriesPerList" && len(x.Body.List) == 1 {
-					if as, ok := x.Body.List[0].(*ast.AssignStmt); ok && exprString(as.Lhs[0]) == "max" && exprString(as.Rhs[0]) == "maxEntriesPerList" {
-						okCap = true
+				// `if <max param> > maxEntriesPerList { <max param> = maxEntriesPerList }`, the parameter being the one
+				// handed to KeysPrefix as page size
+				if nos(describeExpr(lt, x.Cond, 0)) == "(param#2>const:"+capConst+")" && len(x.Body.List) == 1 {
+					if as, ok := x.Body.List[0].(*ast.AssignStmt); ok && len(as.Lhs) == 1 && len(as.Rhs) == 1 {
+						if id, ok := ast.Unparen(as.Lhs[0]).(*ast.Ident); ok {
+							if v, ok := lt.Info().Uses[id].(*types.Var); ok && paramIndex(lt, v) == 2 && describeExpr(lt, as.Rhs[0], 0) == "const:"+capConst {
+								okCap = true
+							}
+						}
 					}
 				}
 			}
@@ -736,7 +772,7 @@ func runC19(c *Ctx) {
 		// max passed on
 		okMax := false
 		ast.Inspect(lt.Decl.Body, func(nd ast.Node) bool {
-			if call, ok := nd.(*ast.CallExpr); ok && calleeID(info, call) == "pkg/storage.Store.KeysPrefix" && exprString(call.Args[4]) == "max" {
+			if call, ok := nd.(*ast.CallExpr); ok && calleeID(info, call) == "pkg/storage.Store.KeysPrefix" && len(call.Args) == 5 && describeExpr(lt, call.Args[4], 0) == "param#2" {
 				okMax = true
 			}
 			return true
